@@ -37,6 +37,9 @@
 (*   dnsdest   "none" | "forever" | "off": the -connect-to destination is a   *)
 (*             name served by the driver's DNS server (-resolvers), with the *)
 (*             default -dns-ttl (kept for ever) or -dns-ttl=-1 (not kept);   *)
+(*             "chain": as "forever", plus a second tuple that maps the      *)
+(*             destination name on to a closed port (tuples are applied      *)
+(*             once, not followed along);                                    *)
 (*             "expire": -dns-ttl=100ms, and the name stops resolving 0.3 s  *)
 (*             into a run of three seconds                                   *)
 (*             o.dnsq = the number of address queries the server received    *)
@@ -88,7 +91,7 @@ Valid(c) ==
     /\ (c.h2c => c.server = "h2c") /\ c.trust \in {"na", "insecure", "rootcert", "none"}
     /\ (c.stall => c = [Base EXCEPT !.stall = TRUE, !.lazy = FALSE, !.rate = 200, !.maxw = 64])
     /\ (c.lookup => c.server = "plain" /\ ~c.connectto /\ ~c.laddr /\ ~c.hosthdr)
-    /\ c.dnsdest \in {"none", "forever", "off", "expire"} /\ (c.dnsdest = "expire" => ~c.lazy /\ c.rate = 50 /\ c.bad = "none")
+    /\ c.dnsdest \in {"none", "forever", "off", "expire", "chain"} /\ (c.dnsdest = "expire" => ~c.lazy /\ c.rate = 50 /\ c.bad = "none")
     /\ (c.dnsdest # "none" => c.connectto /\ c.server = "plain" /\ c.hosts = 1 /\ ~c.keepalive /\ ~c.laddr /\ c.timeout = "default" /\ c.maxconn = 0)
     /\ (c.head => ~c.body)           \* (a HEAD request is sent without a body here)
     /\ c.rate \in {0, 2, 50, 200}          \* (2 per second: the duration is shorter than one pacing interval) /\ c.maxw \in {1, 3, 64} /\ (c.maxw = 64 => c.stall) /\ c.workers \in {1, 3}
@@ -127,6 +130,7 @@ Single ==
           [Base EXCEPT !.connectto = TRUE, !.keepalive = FALSE, !.dnsdest = "forever"], [Base EXCEPT !.connectto = TRUE, !.keepalive = FALSE, !.dnsdest = "off"],
           [Base EXCEPT !.connectto = TRUE, !.keepalive = FALSE, !.dnsdest = "forever", !.lazy = FALSE, !.rate = 50, !.maxw = 3],
           [Base EXCEPT !.connectto = TRUE, !.keepalive = FALSE, !.dnsdest = "expire", !.lazy = FALSE, !.rate = 50, !.maxw = 3],
+          [Base EXCEPT !.connectto = TRUE, !.keepalive = FALSE, !.dnsdest = "chain"],
           [Base EXCEPT !.server = "mtls", !.trust = "insecure", !.clientcert = "pair"], [Base EXCEPT !.server = "mtls", !.trust = "rootcert", !.clientcert = "onefile"],
           [Base EXCEPT !.server = "mtls", !.trust = "insecure"], [Base EXCEPT !.server = "tls", !.trust = "insecure", !.clientcert = "pair"],
           [Base EXCEPT !.server = "tls", !.trust = "insecure", !.keepalive = FALSE, !.tickets = TRUE], [Base EXCEPT !.server = "tls", !.trust = "rootcert", !.tickets = TRUE],
@@ -261,7 +265,7 @@ CmdOK(c, o) ==
        /\ (c.keepalive /\ c.maxw = 1 /\ c.timeout = "default" /\ Reaches(c) /\ c.server # "unix" /\ Proto(c) = "HTTP/1.1" => Cardinality({o.reqs[j].conn : j \in 1..Len(o.reqs)}) = Cardinality({o.reqs[j].dialhost : j \in 1..Len(o.reqs)}))   \* one per host attacked
        \* -connect-to with a destination given by name, looked up through -resolvers: the mapped connections still go through
        \* the -dns-ttl policy - kept for ever by default (one lookup however many connections), none kept with -1
-       /\ (c.dnsdest = "forever" /\ Reaches(c) => o.dnsq >= 1 /\ o.dnsq <= c.maxw)    \* (workers that start together may each miss the still empty cache)
+       /\ (c.dnsdest \in {"forever", "chain"} /\ Reaches(c) => o.dnsq >= 1 /\ o.dnsq <= c.maxw)    \* (workers that start together may each miss the still empty cache)
        \* (the resolver answers lookups of one name that are in progress at the same time with a single query: one per request is
        \* certain for a single worker only; with more, a request beyond the first max-workers needs a lookup of its own)
        /\ (c.dnsdest = "off" /\ Reaches(c) /\ c.maxw = 1 => o.dnsq >= Len(o.reqs))
